@@ -235,7 +235,7 @@ class Wire:
         self.loop = loop
         self.attempts: list = []
         self.servers: dict = {}
-        self.script = None           # (attempt) -> (outcome, delay)
+        self.script = None           # (attempt) -> (outcome, delay[, loop iterations after the delay])
         self.writer_setup = None     # (attempt, writer) -> None
 
     async def open_connection(self, host=None, port=None, **kw):
@@ -249,13 +249,16 @@ class Wire:
         if not bool(usable):
             a.outcome, a.t_end = 'badport', self.loop.time()
             raise OSError('port unusable (0 or beyond 65535)')
-        outcome, delay = self.script(a) if self.script is not None else ('ok', 0)
+        res = self.script(a) if self.script is not None else ('ok', 0)
+        outcome, delay, hops = res[0], res[1], (res[2] if len(res) > 2 else 0)
         a.outcome = outcome
         try:
             if outcome == 'hang':
                 await self.loop.create_future()
             if delay:
                 await asyncio.sleep(delay)
+            for _ in range(hops):           # same virtual instant, `hops` loop iterations later
+                await asyncio.sleep(0)
         finally:
             a.t_end = self.loop.time()      # (also when the caller gives up: time-out, cancellation)
         if outcome == 'refused':
